@@ -35,6 +35,10 @@ HashLen(K) == CASE K = "p2pkh" -> 20 [] K = "p2sh" -> 20 [] K = "p2wpkh" -> 20
                 [] K = "p2wsh" -> 32 [] K = "p2tr" -> 32
 
 \* ---- the templates -------------------------------------------------------
+\* (multisig: m and n are SMALL-INTEGER opcodes OP_1 .. OP_16; n is the number of keys.  A token in the n
+\*  position that is not one of these sixteen opcodes - OP_NOP = OP_16 + 1, OP_VER, OP_0, OP_1NEGATE, a data
+\*  push - is not a number, so such a script is not multisig however many keys it carries: rebuilding it from
+\*  (m, keys) would write a different byte there)
 \* prm: [h |-> data]               for the address kinds and p2pk (h = the key)
 \*      [m |-> 1..16, keys |-> <<data,...>>]                    for multisig
 \*      [rest |-> <<tokens>>]      for nulldata (everything after OP_RETURN)
